@@ -1,0 +1,30 @@
+//go:build verif
+
+package formatter
+
+// Contracts for the verifier in /verif (govc). Comment-only.
+
+// escapeText: text outside {{ … }} has & < > replaced by references, a complete mustache is copied byte for byte.
+//@ spec func escTextFrom(s string, i int) string decreases len(s) - i {
+//@   (i < 0 || i >= len(s)) ? "" :
+//@   ((i + 1 < len(s) && s[i] == '{' && s[i+1] == '{' && indexOf(s[i+2:], "}}") != 0 - 1)
+//@     ? s[i : i + 2 + indexOf(s[i+2:], "}}") + 2] + escTextFrom(s, i + 2 + indexOf(s[i+2:], "}}") + 2)
+//@     : (s[i] == '&' ? "&amp;" : (s[i] == '<' ? "&lt;" : (s[i] == '>' ? "&gt;" : s[i:i+1]))) + escTextFrom(s, i + 1)) }
+
+//@ func escapeText(s) (r)
+//@   modifies nothing
+//@   ensures C19.text.escaped: r == escTextFrom(s, 0)
+//@   loop 0 invariant bounds: 0 <= i && i <= len(s)
+//@   loop 0 invariant C19.text.scan: built(&b) + escTextFrom(s, i) == escTextFrom(s, 0)
+
+// renderOpenTag: every attribute value is written between double quotes with its own double quotes as &quot;
+//@ spec func fmtAttr(val string) string
+//@ spec func openAttrItem(a html.Attribute) string {
+//@   " " + a.Key + (a.Val != "" ? "=\"" + replaceAll(fmtAttr(a.Val), "\"", "&quot;") + "\"" : "") }
+//@ spec func openAttrs(as []html.Attribute, k int) string decreases k { k <= 0 ? "" : openAttrs(as, k - 1) + openAttrItem(as[k-1]) }
+
+//@ func (f *Formatter) renderOpenTag(n) (r)
+//@   modifies nothing
+//@   ensures C19.attr.quote: r == "<" + n.Data + openAttrs(n.Attr, len(n.Attr)) + ">"
+//@   loop 0 invariant bounds: 0 <= $i && $i <= len(n.Attr)
+//@   loop 0 invariant C19.attr.scan: built(&buf) == "<" + n.Data + openAttrs(n.Attr, $i)
